@@ -288,6 +288,22 @@ save('benign-flow-wrapper','C14','std/math/cmp/bounded.go','Min split into an ex
 m('emuwidth-quotient','C12',['EMU-WIDTH'],'std/math/emulated/field_mul.go','''	quo = f.packLimbs(ret[:nbQuoLimbs], false)
 	// remainder is always range checked when we use it as a result of''','''	quo = f.newInternalElement(ret[:nbQuoLimbs], 0)
 	// remainder is always range checked when we use it as a result of''',note='quotient limbs of mulHint no longer width-checked (a new unconstrained piece besides the known carries)')
+m('pooluaf-early-put','C11',['POOL-UAF'],'constraint/core.go','''	blueprint.(BlueprintR1C).CompressR1C(&c, calldata)
+	cs.AddInstruction(bID, *calldata)
+
+	// release the []uint32 to the pool
+	putBuffer(calldata)
+''','''	blueprint.(BlueprintR1C).CompressR1C(&c, calldata)
+	data := *calldata
+	// release the []uint32 to the pool
+	putBuffer(calldata)
+	cs.AddInstruction(bID, data)
+''',note='buffer handed back to the pool before the instruction is copied out of it')
+m('pooluaf-solver-q','C10',['POOL-UAF'],'constraint/bls12-381/solver.go','''	err := f(q, inputs, outputs)
+''','''	pool.BigInt.Put(q)
+	err := f(q, inputs, outputs)
+''',note='modulus big.Int released to the shared pool before the hint function runs (double release later is harmless for the rule)')
+m('optrelax-mux','C14',['OPT-RELAX'],'std/selector/multiplexer.go','''	selBits := bits.ToBinary(api, sel, bits.WithNbDigits(nbBits)) // binary decomposition ensures sel < 2^nbBits''','''	selBits := bits.ToBinary(api, sel, bits.WithNbDigits(nbBits), bits.WithUnconstrainedOutputs()) // binary decomposition ensures sel < 2^nbBits''',note='selector bits no longer constrained boolean by the decomposition')
 json.dump({'comment':'selftest mutants: each patch breaks one rule instance and must be detected by the listed rule(s) of its property; produced by tools/make_selftest.py','mutants':M}, open(os.path.join(root,'selftest','mutants.json'),'w'), indent=1)
 subprocess.run(['git','-C','/repo','worktree','remove','--force',WT],capture_output=True)
 print(len(M),'mutants')
